@@ -66,11 +66,11 @@ def valid_field_name(n):
 
 
 def value_expr(T, e):
-    return type(e) in (T.Word, T.Phrase, T.Fuzzy, T.Proximity, T.Boost, T.FieldGroup)
+    return type(e) in (T.Word, T.Phrase, T.Regex, T.Fuzzy, T.Proximity, T.Boost, T.FieldGroup, T.Range, T.From, T.To)
 
 
 def range_bound(T, e):
-    return type(e) in (T.Word, T.Phrase)
+    return type(e) in (T.Word, T.Phrase) or (type(e) is T.Prohibit and type(e.a) in (T.Word, T.Phrase))
 
 
 def wellformed(T, t, zeal, parent=None):
@@ -136,8 +136,15 @@ class WF:
 
     def value(self, depth):
         T, r = self.T, self.r
-        k = r.choice(["word", "phrase", "fuzzy", "prox", "boost", "fgroup"]) if depth > 0 else \
-            r.choice(["word", "phrase", "fuzzy", "prox"])
+        k = r.choice(["word", "phrase", "fuzzy", "prox", "boost", "fgroup", "range", "regex", "from", "to"]) \
+            if depth > 0 else r.choice(["word", "phrase", "fuzzy", "prox", "range", "regex", "from", "to"])
+        if k == "range":
+            b = lambda: self.bound() if r.random() < 0.8 else T.Prohibit(self.bound())  # noqa
+            return T.Range(b(), b(), r.random() < 0.5, r.random() < 0.5)
+        if k == "regex":
+            return T.Regex(r.choice(self.REGEXES))
+        if k in ("from", "to"):
+            return (T.From if k == "from" else T.To)(self.bound(), r.random() < 0.5)
         if k == "word":
             return self.word()
         if k == "phrase":
